@@ -17,6 +17,21 @@ def handleWfstatic : List Sexp → Sexp
     | none => .list [.atom "bad-request"]
   | _ => .list [.atom "bad-request"]
 
-def wfHandlers : List (String × (List Sexp → Sexp)) := [("wfstatic", handleWfstatic)]
+/-- `(disasm <prog>)` → `(ok (<offset> <OpName> <operand or ->) …)` | `(undecodable)`: the model's linear decoding,
+    compared with the library's own decoder `Program.Disassemble` -/
+def handleDisasm : List Sexp → Sexp
+  | [.atom "disasm", prog] =>
+    match progOfSexp prog with
+    | some p =>
+      let bytes := p.code.toList
+      match decodeAll bytes.length bytes with
+      | some is =>
+        .list (.atom "ok" :: (List.zip (instrOffsets 0 is) is).map fun (off, i) =>
+          .list [Sexp.nat off, .atom i.op.goName, if i.op.hasArg then Sexp.nat i.arg else .atom "-"])
+      | none => .list [.atom "undecodable"]
+    | none => .list [.atom "bad-request"]
+  | _ => .list [.atom "bad-request"]
+
+def wfHandlers : List (String × (List Sexp → Sexp)) := [("wfstatic", handleWfstatic), ("disasm", handleDisasm)]
 
 end ExprModel.Drv
